@@ -48,6 +48,20 @@ def build(name, hetero=False, work=None):
         mass = np.array(cfg["engine"]["particles"]["mass"], dtype=float)
         info = {"kbt": cfg["engine"]["boltzmann"] * cfg["engine"]["temperature"], "mass": mass, "vfac": 1.0}
         return eng, os.path.join(ip, f"conf.{eng.ext}"), info
+    if name == "turtlemd1d":       # the one-dimensional double well: three velocity columns in the file, one degree of freedom
+        from infretis.classes.engines.factory import create_engine
+        ip = os.path.join(EX, "turtlemd", "double_well")
+        with open(os.path.join(ip, "infretis.toml"), "rb") as fh:
+            cfg = tomli.load(fh)
+        if hetero:
+            cfg["engine"]["particles"]["mass"] = [3.0]
+        eng = create_engine(cfg)
+        mass = np.array(cfg["engine"]["particles"]["mass"], dtype=float)
+        info = {"kbt": cfg["engine"]["boltzmann"] * cfg["engine"]["temperature"], "mass": mass, "vfac": 1.0}
+        conf = os.path.join(work or "/tmp", "conf_dw.xyz")
+        with open(conf, "w") as fh:
+            fh.write("1\n# double well\nZ    -0.900000000     0.000000000     0.000000000     0.250000000     0.000000000     0.000000000\n")
+        return eng, conf, info
     if name == "lammps":
         from infretis.classes.engines.lammps import LAMMPSEngine
         ip = os.path.join(EX, "lammps", "H2", "lammps_input")
@@ -121,8 +135,9 @@ def make_multiframe(name, eng, conf, path_noext, nframes=3):
     for j in range(nframes):
         pos = x0 + 0.01 * j
         vel = np.array([[0.001 * (j + 1) * (a + 1) * (1 if c == 0 else -0.5) for c in range(3)] for a in range(n)])
-        frames.append((pos, vel, None if b0 is None else np.array(b0, dtype=float)))
-    if name in ("cp2k", "turtlemd"):
+        # the box differs from frame to frame (and from the engine's input configuration)
+        frames.append((pos, vel, None if b0 is None else np.array(b0, dtype=float) * (1.0 + 0.01 * (j + 1))))
+    if name in ("cp2k", "turtlemd", "turtlemd1d"):
         fn = path_noext + ".xyz"
         with open(fn, "w") as fh:
             for pos, vel, box in frames:
@@ -145,8 +160,10 @@ def make_multiframe(name, eng, conf, path_noext, nframes=3):
         import ase.io
         base = ase.io.read(conf)
         imgs = []
-        for pos, vel, _box in frames:
+        for pos, vel, box in frames:
             a = base.copy()
+            if box is not None:
+                a.set_cell(np.ravel(box)[:3] if np.size(box) == 3 else np.array(box), scale_atoms=False)
             a.set_positions(pos)
             a.set_velocities(vel)
             imgs.append(a)
